@@ -19,6 +19,7 @@ import XotModel.Lemmas.Html5Embedded
 import XotModel.Lemmas.Html5Top
 import XotModel.Lemmas.Html5Decode
 import XotModel.Lemmas.Html5Pretty
+import XotModel.Lemmas.Html5PrettyWhere
 
 namespace XotModel.Props
 open XotModel XotModel.Gen
@@ -534,6 +535,58 @@ theorem C19_pretty_where (ps : PStack) (h : ps.getIndentation > 0 ∨ ps.getNewl
   rcases h with h | h
   · cases hm : ps.inMixed <;> cases hp : ps.inSpacePreserve <;> simp [PStack.getIndentation, hm, hp] at h ⊢
   · simpa [PStack.getNewline] using h
+
+/-- Exact indentation as a function of the tree (analogue of `C14_pretty_where_tree`): along the
+    HTML run the `Pretty` stack before every event is `hpentriesFor` — the entries of the open
+    elements (those with children) between the start node and the event's node, `Mixed` for a
+    text / inline-element child, a formatted element or a suppressed name, else
+    `Unmixed(xml:space)`.  So every decoration of `C19_pretty_tokens` (paired with its event) is
+    `prettify` on that explicit function of the tree. -/
+theorem C19_pretty_where_tree (c : HtmlCtx) (sup : List Nat) (t : Tree) (start : Path) (n : Tree)
+    (inScope : List (Nat × Nat)) (hat : t.at? start = some n)
+    (hs : namespacesInScope t start = some inScope) (x : (Nat × Bool) × Path × Output)
+    (hx : x ∈ List.zip (htmlPrettyTrace c sup t [] (genOutputs t start)) (genOutputs t start)) :
+    ∃ rel node, x.2.1 = start ++ rel ∧ n.at? rel = some node ∧
+      x.1 = (prettifyHtml c sup (hpentriesFor c sup x.2.2 n rel) node x.2.2).2 := by
+  obtain ⟨rel, node, h1, h2, h3, _⟩ := html_pretty_where_tree c sup t start n inScope hat hs x hx
+  exact ⟨rel, node, h1, h2, h3⟩
+
+/-- Mixed content in HTML's sense, on trees, full strength: an event is decorated with indentation
+    or a newline only if no open element strictly above its node has a text or inline (phrasing)
+    element child, is a formatted element, or matches the suppress list — at any depth. -/
+theorem C19_pretty_where_tree_mixed (c : HtmlCtx) (sup : List Nat) (t : Tree) (start : Path) (n : Tree)
+    (inScope : List (Nat × Nat)) (hat : t.at? start = some n)
+    (hs : namespacesInScope t start = some inScope) (x : (Nat × Bool) × Path × Output)
+    (hx : x ∈ List.zip (htmlPrettyTrace c sup t [] (genOutputs t start)) (genOutputs t start))
+    (hw : x.1.1 > 0 ∨ x.1.2 = true) :
+    ∃ rel, x.2.1 = start ++ rel ∧
+      ∀ a name, OpenAbove n rel a → a.value = .element name → a.firstChild?.isSome = true →
+        htmlHasInlineChild c a = false ∧ htmlIsSuppressed c sup name = false :=
+  html_pretty_where_tree_mixed c sup t start n inScope hat hs x hx hw
+
+/-- `xml:space="preserve"` on trees: indentation only if the entries the event finds (its own
+    element's included for an end tag) are not in `preserve` scope, a newline only if the entries
+    it lands in (its own element's included for `>`) are not. -/
+theorem C19_pretty_where_tree_preserve (c : HtmlCtx) (sup : List Nat) (t : Tree) (start : Path) (n : Tree)
+    (inScope : List (Nat × Nat)) (hat : t.at? start = some n)
+    (hs : namespacesInScope t start = some inScope) (x : (Nat × Bool) × Path × Output)
+    (hx : x ∈ List.zip (htmlPrettyTrace c sup t [] (genOutputs t start)) (genOutputs t start)) :
+    ∃ rel, x.2.1 = start ++ rel ∧
+      (x.1.1 > 0 → PStack.inSpacePreserve (hpentriesFor c sup x.2.2 n rel) = false) ∧
+      (x.1.2 = true → PStack.inSpacePreserve (hpentriesAfter c sup x.2.2 n rel) = false) := by
+  obtain ⟨rel, node, h1, _, _, h4, h5⟩ := html_pretty_where_tree c sup t start n inScope hat hs x hx
+  exact ⟨rel, h1, fun h => (h4 h).2, fun h => (h5 h).2⟩
+
+/-- Non-vacuity: in `<div><p>a</p><ul><li/></ul></div>` events are decorated (`<p` indentation 1,
+    `<li` indentation 2, newlines) while nothing inside the mixed `p` is. -/
+example :
+    htmlPrettyTrace (htmlCtx ⟨[[], xmlNs], [[], ['x','m','l']],
+        [(['s','p','a','c','e'], 1), (['i','d'], 1), (['d','i','v'], 0), (['p'], 0), (['b'], 0), (['u','l'], 0), (['l','i'], 0)]⟩
+        ⟨some [], []⟩) []
+      (.node (.element 2) [.node (.element 3) [.node (.text ['a']) []], .node (.element 5) [.node (.element 6) []]]) []
+      (genOutputs (.node (.element 2) [.node (.element 3) [.node (.text ['a']) []], .node (.element 5) [.node (.element 6) []]]) [])
+    = [(0, false), (0, false), (0, true), (1, false), (0, false), (0, false), (0, true), (1, false),
+       (0, true), (2, false), (0, false), (0, true), (1, true), (0, true)] := by decide
 
 /-- `<div><p>a<b>c</b></p><ul><li>x</li></ul></div>`: `p` and `li` are mixed (one line each), `div`
     and `ul` are not. -/
